@@ -370,8 +370,10 @@ def fnum(s):
 
 def run_interpreter(m):
     """the REAL interpreter, one run_single_step per Fortran run() call; the same observations"""
+    import warnings
     import numpy as np
     from dagrt.exec_numpy import FailStepException, NumpyInterpreter, TransitionEvent
+    warnings.simplefilter("ignore", RuntimeWarning)        # overflow to infinity is part of some methods
     code = build_code(m)
     interp = NumpyInterpreter(code, {"<func>rhs": lambda t, y: -2 * y + t, "<func>split": lambda y: (2 * y, -y)})
     interp.set_up(t_start=float(m["t0"]), dt_start=float(m["dt"]), context={"y": np.array([float(v) for v in m["y0"]])})
@@ -405,6 +407,8 @@ def close(a, b):
         return isinstance(a, list) and isinstance(b, list) and len(a) == len(b) and all(close(x, y) for x, y in zip(a, b))
     if math.isnan(a) or math.isnan(b):
         return math.isnan(a) and math.isnan(b)
+    if math.isinf(a) or math.isinf(b):
+        return a == b
     return abs(a - b) <= 1e-9 * max(1.0, abs(a), abs(b))
 
 
